@@ -77,11 +77,11 @@ var helmFrame = regexp.MustCompile(`(?m)^(helm\.sh/helm/v4/[^\s(]+(?:\([^)]*\))?
 type env struct {
 	statusTable bool // also run `helm status -o table` (set by HV_C20_STATUS_TABLE=1, for the replay of the reported finding)
 	dir         string
-	obs     *Obs
-	current string
-	mu      sync.Mutex
-	depth   int
-	key     *openpgp.Entity
+	obs         *Obs
+	current     string
+	mu          sync.Mutex
+	depth       int
+	key         *openpgp.Entity
 }
 
 // call runs one entry point under recover.
@@ -258,9 +258,20 @@ func (e *env) runChart(cs Case, idx int) error {
 		return nil
 	}
 	e.call("Chart.Validate", func() error { ch, _ := load(); return ch.Validate() })
-	e.call("chartutil.ProcessDependencies", func() error { ch, _ := load(); return chartutil.ProcessDependencies(ch, clone(userVals).(map[string]any)) })
-	e.call("chartutil.CoalesceValues", func() error { ch, _ := load(); _, err := chartutil.CoalesceValues(ch, clone(userVals).(map[string]any)); return err })
-	e.call("chartutil.MergeValues", func() error { ch, _ := load(); _, err := chartutil.MergeValues(ch, clone(userVals).(map[string]any)); return err })
+	e.call("chartutil.ProcessDependencies", func() error {
+		ch, _ := load()
+		return chartutil.ProcessDependencies(ch, clone(userVals).(map[string]any))
+	})
+	e.call("chartutil.CoalesceValues", func() error {
+		ch, _ := load()
+		_, err := chartutil.CoalesceValues(ch, clone(userVals).(map[string]any))
+		return err
+	})
+	e.call("chartutil.MergeValues", func() error {
+		ch, _ := load()
+		_, err := chartutil.MergeValues(ch, clone(userVals).(map[string]any))
+		return err
+	})
 	e.call("chartutil.ValidateAgainstSchema", func() error {
 		ch, _ := load()
 		return chartutil.ValidateAgainstSchema(ch, clone(userVals).(map[string]any))
@@ -637,21 +648,15 @@ func (e *env) runRelease(cs Case, idx int) error {
 			_, err := runCLI(cfg, []string{"history", "rel", "--namespace", "ns", "-o", format})
 			return err
 		})
-		if format != "table" || e.statusTable { // status as a table dereferences a null entry of the hooks list (reported): replay only
-			e.call("helm status -o "+format, func() error {
-				_, err := runCLI(cfg, []string{"status", "rel", "--namespace", "ns", "-o", format})
-				return err
-			})
-		}
+		// (status as a table, get all and get hooks used to dereference a null entry of the hooks list: repaired in b127997)
+		e.call("helm status -o "+format, func() error {
+			_, err := runCLI(cfg, []string{"status", "rel", "--namespace", "ns", "-o", format})
+			return err
+		})
 	}
-	if e.statusTable { // the same table printer as helm status
-		e.call("helm get all", func() error { _, err := runCLI(cfg, []string{"get", "all", "rel", "--namespace", "ns"}); return err })
-	}
+	e.call("helm get all", func() error { _, err := runCLI(cfg, []string{"get", "all", "rel", "--namespace", "ns"}); return err })
 	for _, what := range []string{"values", "manifest", "notes", "hooks"} {
 		what := what
-		if what == "hooks" && !e.statusTable { // dereferences a null entry of the hooks list as well (reported): replay only
-			continue
-		}
 		e.call("helm get "+what, func() error { _, err := runCLI(cfg, []string{"get", what, "rel", "--namespace", "ns"}); return err })
 	}
 	e.call("helm get metadata -o json", func() error {
